@@ -50,6 +50,9 @@ structure Config where
   halt : Nat → Nat → Bool       -- interface name → cycle → interactBOC returns a truthy value
   conv : Nat → Nat → Nat → Nat → Bool
                                 -- interface name → r.p.cycle → r.p.timeNode → iteration → coupler.isConverged
+  bolSet : Option (Nat × Nat × Nat) := none
+                                -- (name, c, n): the interactBOL hook of that interface assigns r.p.cycle := c,
+                                -- r.p.timeNode := n (what MainInterface.interactBOL does for a restart)
 
 /-- (r.p.cycle, r.p.timeNode) -/
 structure RState where
@@ -144,13 +147,40 @@ def mainLoop (cfg : Config) (startingCycle : Nat) : Nat → Nat → RState → L
       (r1.2.1 ++ r2.1, r2.2)
     else (r1.2.1, r1.2.2)
 
-/-- `Operator._mainOperate` -/
-def run (cfg : Config) : List Event :=
+/-- the loop and the end-of-life part of `_mainOperate`, entered with r.p.cycle / r.p.timeNode =
+`cfg.startCycle` / `cfg.startNode`: `startingCycle = self.r.p.cycle; for cycle in range(…): …; interactAllEOL()` -/
+def afterBOL (cfg : Config) : List Event :=
   let s0 : RState := ⟨cfg.startCycle, cfg.startNode⟩
-  let e0 := interactAll .BOL (active cfg .BOL [] 0) [] s0
   let startingCycle := s0.rc
   let r1 := mainLoop cfg startingCycle (cfg.nCycles - startingCycle) startingCycle s0
-  e0 ++ r1.1 ++ interactAll .EOL (active cfg .EOL [] 0) [] r1.2
+  r1.1 ++ interactAll .EOL (active cfg .EOL [] 0) [] r1.2
+
+/-- `_mainOperate` when no hook touches the time state during beginning-of-life (the restart point
+is already set on entry) -/
+def runPreset (cfg : Config) : List Event :=
+  interactAll .BOL (active cfg .BOL [] 0) [] ⟨cfg.startCycle, cfg.startNode⟩ ++ afterBOL cfg
+
+/-- what a BOL hook does to (r.p.cycle, r.p.timeNode) -/
+def bolEffect (cfg : Config) (i : Iface) (s : RState) : RState :=
+  match cfg.bolSet with
+  | some (nm, c, n) => if i.name = nm then ⟨c, n⟩ else s
+  | none => s
+
+/-- `interactAllBOL`: every active interface in order; each sees the time state its predecessors left -/
+def bolPhase (cfg : Config) : List Iface → RState → List Event × RState
+  | [], s => ([], s)
+  | i :: rest, s =>
+    let r := bolPhase cfg rest (bolEffect cfg i s)
+    (⟨.BOL, i.name, [], s.rc, s.rn⟩ :: r.1, r.2)
+
+/-- the configuration as the cycle loop sees it: the time state left by beginning-of-life -/
+def restarted (cfg : Config) : Config :=
+  let s := (bolPhase cfg (active cfg .BOL [] 0) ⟨cfg.startCycle, cfg.startNode⟩).2
+  { cfg with startCycle := s.rc, startNode := s.rn }
+
+/-- `Operator._mainOperate`: `interactAllBOL()`, THEN `startingCycle = self.r.p.cycle`, the loop, EOL -/
+def run (cfg : Config) : List Event :=
+  (bolPhase cfg (active cfg .BOL [] 0) ⟨cfg.startCycle, cfg.startNode⟩).1 ++ afterBOL (restarted cfg)
 
 /-- inputs the real code refuses: `_checkReactorCycleAttrs` (burn steps per cycle must have
 nCycles entries); and, when a node is actually run with tight coupling on: no interface named
